@@ -87,4 +87,51 @@ def product {α : Type} : List (List α) → List (List α)
   | [] => [[]]
   | l :: ls => l.flatMap fun x => (product ls).map (x :: ·)
 
+/- `list(reversed(l))`, `l.reverse()`: `List.reverse`; `zip(a, b)`: `List.zip` (used directly). -/
+
+/-! ### dicts with distinct keys, in insertion order (Python ≥ 3.7 iteration order) -/
+
+/-- `d[k] = v` / `d.update({k: v})`: replace the value of an existing key in place, else append. -/
+def dictSet {K V : Type} [DecidableEq K] : List (K × V) → K → V → List (K × V)
+  | [], k, v => [(k, v)]
+  | (k', v') :: rest, k, v => if k' = k then (k', v) :: rest else (k', v') :: dictSet rest k v
+
+/-- `d[k]` (`KeyError` positions give `default`). -/
+def dictGet {K V : Type} [DecidableEq K] [Inhabited V] : List (K × V) → K → V
+  | [], _ => default
+  | (k', v') :: rest, k => if k' = k then v' else dictGet rest k
+
+/-- `for k in d` / `d.keys()`. -/
+def dictKeys {K V : Type} (d : List (K × V)) : List K := d.map Prod.fst
+
+/-- `d.values()`. -/
+def dictValues {K V : Type} (d : List (K × V)) : List V := d.map Prod.snd
+
+/-! ### opaque scalars (Python floats / jnp scalars): the operations are parameters, never interpreted -/
+
+/-- The operations a translated function may apply to values of the opaque scalar type `R`:
+`a + b`, `a * b`, `a / b`, conversion of an int (also int literals and literals like `0.0` meeting an `R`),
+`int(x // 1)`, truthiness `if x`, and the `<` used by `sorted`. -/
+structure RealOps (R : Type) where
+  add : R → R → R
+  mul : R → R → R
+  div : R → R → R
+  ofInt : Int → R
+  floor : R → Int
+  truthy : R → Bool
+  lt : R → R → Bool
+
+/-- insertion of `x` (which stood before all of the list) into a list that is descending by `key`:
+in front of the first element whose key is not strictly larger. -/
+def insDesc {α K : Type} (lt : K → K → Bool) (key : α → K) (x : α) : List α → List α
+  | [] => [x]
+  | y :: ys => if lt (key x) (key y) then y :: insDesc lt key x ys else x :: y :: ys
+
+/-- `sorted(l, key=key, reverse=True)`: stable (equal keys keep their original order, also with `reverse=True`),
+descending.  Written as insertion from the right; it is what CPython returns whenever `<` is a strict weak order on
+the keys that occur (no NaN) — for other `<` CPython's result depends on its merge strategy and is not modelled. -/
+def sortedDesc {α K : Type} (lt : K → K → Bool) (key : α → K) : List α → List α
+  | [] => []
+  | x :: xs => insDesc lt key x (sortedDesc lt key xs)
+
 end PrecondVerif.Gen.Py
